@@ -269,3 +269,280 @@ theorem traverse_spec (g : Geo) {dt : Nat} (hdt : 0 < dt) : TraverseSpec (traver
           rw [hf, hroute, getLast?_stop first.start (f :: rs) (by simp), hlr]
 
 end Hive
+
+namespace Hive
+
+/-! ### the driven part followed by the remaining part is the original route -/
+
+/-- identity and end points of a link (distance and speed are re-derived on a split) -/
+def Link.geom (l : Link) : LinkId × Cell × Cell := (l.id, l.start, l.stop)
+
+def Link.nd (l : Link) : Bool := l.start != l.stop
+
+/-- `done = pre ++ post`: the links of `pre` were driven (degenerate ones dropped), those of `post`
+    are kept untouched; at most the last link of `pre` is split at a cell `mid` -/
+def TravShape (done : Route) (acc : TravAcc) : Prop :=
+  ∃ pre post, done = pre ++ post ∧
+    ((acc.remaining = post ∧ acc.experienced.map Link.geom = (pre.filter Link.nd).map Link.geom ∧
+        (post ≠ [] → acc.timeLeft = 0)) ∨
+     (∃ pre' l mid, pre = pre' ++ [l] ∧ l.nd = true ∧
+        acc.experienced.map Link.geom = (pre'.filter Link.nd).map Link.geom ++ [(l.id, l.start, mid)] ∧
+        acc.remaining.map Link.geom = (l.id, mid, l.stop) :: post.map Link.geom ∧ acc.timeLeft = 0))
+
+theorem traverseStep_shape {g : Geo} {done : Route} {acc acc' : TravAcc} {l : Link}
+    (hs : TravShape done acc) (h : traverseStep g acc l = some acc') : TravShape (done ++ [l]) acc' := by
+  obtain ⟨pre, post, hd, hcase⟩ := hs
+  unfold traverseStep at h
+  split at h
+  · next ht =>
+    cases h
+    have ht' : acc.timeLeft = 0 := by simpa using ht
+    refine ⟨pre, post ++ [l], by rw [hd, List.append_assoc], ?_⟩
+    rcases hcase with ⟨h1, h2, _⟩ | ⟨pre', l0, mid, h1, h2, h3, h4, h5⟩
+    · exact Or.inl ⟨by simp [h1], h2, fun _ => ht'⟩
+    · exact Or.inr ⟨pre', l0, mid, h1, h2, h3, by simp [h4], h5⟩
+  · next ht =>
+    have ht' : acc.timeLeft ≠ 0 := by simpa using ht
+    -- still driving: nothing is pending
+    obtain ⟨hrem, hexp, hpost⟩ : acc.remaining = [] ∧
+        acc.experienced.map Link.geom = (pre.filter Link.nd).map Link.geom ∧ post = [] := by
+      rcases hcase with ⟨h1, h2, h3⟩ | ⟨_, _, _, _, _, _, _, h5⟩
+      · have : post = [] := by
+          by_cases hp : post = []
+          · exact hp
+          · exact absurd (h3 hp) ht'
+        exact ⟨by rw [h1, this], h2, this⟩
+      · exact absurd h5 ht'
+    subst hpost
+    simp only [List.append_nil] at hd
+    subst hd
+    split at h
+    · cases h
+    · next sp _ =>
+      cases h
+      unfold traverseUpTo
+      simp only
+      split
+      · next hdeg =>
+        refine ⟨done ++ [l], [], by simp, Or.inl ⟨hrem, ?_, fun h => absurd rfl h⟩⟩
+        have : l.nd = false := by simpa [Link.nd] using hdeg
+        simp [List.filter_append, this, hexp]
+      · next hnd =>
+        have hnd' : l.nd = true := by simpa [Link.nd] using hnd
+        split
+        · refine ⟨done ++ [l], [], by simp, Or.inl ⟨hrem, ?_, fun h => absurd rfl h⟩⟩
+          simp [List.filter_append, hnd', hexp, Link.geom]
+        · refine ⟨done ++ [l], [], by simp, Or.inr ⟨done, l, g.pointAlong { l with speed := sp } acc.timeLeft.toNat,
+            rfl, hnd', ?_, ?_, rfl⟩⟩
+          · simp [hexp, Link.geom]
+          · simp [hrem, Link.geom]
+
+theorem traverseFold_shape {g : Geo} :
+    ∀ {todo done : Route} {acc acc' : TravAcc}, TravShape done acc →
+      traverseFold g acc todo = some acc' → TravShape (done ++ todo) acc'
+  | [], done, acc, acc', hs, h => by simp only [traverseFold] at h; cases h; simpa using hs
+  | l :: ls, done, acc, acc', hs, h => by
+    simp only [traverseFold] at h
+    split at h
+    · cases h
+    · next acc1 hstep =>
+      have := traverseFold_shape (todo := ls) (traverseStep_shape hs hstep) h
+      simpa using this
+
+/-- **route preservation** for the concrete `traverse`: when something is driven, the route is
+    `pre ++ post` with `post` kept untouched, the non-degenerate links of `pre` driven in order,
+    and at most the last of them split in two parts with the same id that meet at one cell -/
+theorem traverse_shape {g : Geo} {route : Route} {dt : Nat} {tr : Traversal}
+    (h : traverse g route dt = .ok tr) (hne : tr.experienced ≠ []) :
+    ∃ acc, TravShape route acc ∧ tr.experienced = acc.experienced ∧ tr.remaining = acc.remaining := by
+  cases route with
+  | nil => simp only [traverse] at h; cases h; exact absurd rfl hne
+  | cons first rest =>
+    simp only [traverse] at h
+    split at h
+    · cases h; exact absurd rfl hne
+    · split at h
+      · cases h
+      · next acc hfold =>
+        cases h
+        have h0 : TravShape [] { timeLeft := dt } :=
+          ⟨[], [], rfl, Or.inl ⟨rfl, rfl, fun h => absurd rfl h⟩⟩
+        have := traverseFold_shape h0 hfold
+        exact ⟨acc, by simpa using this, rfl, rfl⟩
+
+/-- the odometer increment booked by `move` is the sum of the driven links' lengths -/
+theorem traverse_km {g : Geo} {route : Route} {dt : Nat} {tr : Traversal}
+    (h : traverse g route dt = .ok tr) : tr.km = tr.experienced.foldl (fun a l => a + l.dist) 0 := by
+  cases route with
+  | nil => simp only [traverse] at h; cases h; rfl
+  | cons first rest =>
+    simp only [traverse] at h
+    split at h
+    · cases h; rfl
+    · split at h
+      · cases h
+      · next acc hfold =>
+        cases h
+        -- reuse the accumulator invariant without the connectivity part: `km` only
+        have : ∀ {todo : Route} {a a' : TravAcc}, a.km = a.experienced.foldl (fun x l => x + l.dist) 0 →
+            traverseFold g a todo = some a' → a'.km = a'.experienced.foldl (fun x l => x + l.dist) 0 := by
+          intro todo
+          induction todo with
+          | nil => intro a a' hk hf; simp only [traverseFold] at hf; cases hf; exact hk
+          | cons l ls ih =>
+            intro a a' hk hf
+            simp only [traverseFold] at hf
+            split at hf
+            · cases hf
+            · next a1 hstep =>
+              refine ih ?_ hf
+              unfold traverseStep at hstep
+              split at hstep
+              · cases hstep; exact hk
+              · split at hstep
+                · cases hstep
+                · next sp _ =>
+                  cases hstep
+                  by_cases hdeg : (l.start == l.stop) = true
+                  · simp only [traverseUpTo, hdeg, if_true]; exact hk
+                  · by_cases hfit : ({ l with speed := sp } : Link).travelTime ≤ a.timeLeft
+                    · simp only [traverseUpTo, hdeg, hfit, if_true, if_false, Bool.false_eq_true]
+                      rw [foldl_dist_append, hk]
+                    · simp only [traverseUpTo, hdeg, hfit, if_false, Bool.false_eq_true]
+                      rw [foldl_dist_append, hk]
+        exact this rfl hfold
+
+end Hive
+
+namespace Hive
+
+/-! ### time budget and progress -/
+
+def sumTT (r : Route) : Int := r.foldl (fun a l => a + l.travelTime) 0
+
+theorem sumTT_append (r : Route) (l : Link) : sumTT (r ++ [l]) = sumTT r + l.travelTime := by
+  simp [sumTT, List.foldl_append]
+
+/-- the fully driven links consumed their (whole-second) travel times out of the step's budget;
+    at most one further link was driven partially, and only after which nothing else is driven -/
+def TravTime (dt : Nat) (acc : TravAcc) : Prop :=
+  ∃ fulls : Route, ∃ part : Option Link, acc.experienced = fulls ++ part.toList ∧
+    sumTT fulls + acc.timeLeft ≤ dt ∧ (part.isSome → acc.timeLeft = 0) ∧ 0 ≤ acc.timeLeft
+
+theorem traverseStep_time {g : Geo} {dt : Nat} {acc acc' : TravAcc} {l : Link}
+    (hs : TravTime dt acc) (h : traverseStep g acc l = some acc') : TravTime dt acc' := by
+  obtain ⟨fulls, part, he, hsum, hpart, hnn⟩ := hs
+  unfold traverseStep at h
+  split at h
+  · cases h; exact ⟨fulls, part, he, hsum, hpart, hnn⟩
+  · next ht =>
+    have ht' : acc.timeLeft ≠ 0 := by simpa using ht
+    have hp : part = none := by
+      cases part with
+      | none => rfl
+      | some p => exact absurd (hpart rfl) ht'
+    subst hp
+    simp only [Option.toList_none, List.append_nil] at he
+    split at h
+    · cases h
+    · next sp _ =>
+      cases h
+      by_cases hdeg : (l.start == l.stop) = true
+      · simp only [traverseUpTo, hdeg, if_true]
+        exact ⟨fulls, none, by simpa using he, hsum, (fun h => by cases h), hnn⟩
+      · by_cases hfit : ({ l with speed := sp } : Link).travelTime ≤ acc.timeLeft
+        · simp only [traverseUpTo, hdeg, hfit, if_true, if_false, Bool.false_eq_true]
+          refine ⟨fulls ++ [{ l with speed := sp }], none, by simp [he], ?_, (fun h => by cases h), ?_⟩
+          · rw [sumTT_append]
+            simp only
+            omega
+          · simp only
+            omega
+        · simp only [traverseUpTo, hdeg, hfit, if_false, Bool.false_eq_true]
+          refine ⟨fulls, some _, by rw [he]; rfl, ?_, (fun _ => rfl), ?_⟩
+          · simp only
+            omega
+          · simp only
+            omega
+
+theorem traverseFold_time {g : Geo} {dt : Nat} :
+    ∀ {todo : Route} {acc acc' : TravAcc}, TravTime dt acc → traverseFold g acc todo = some acc' → TravTime dt acc'
+  | [], acc, acc', hs, h => by simp only [traverseFold] at h; cases h; exact hs
+  | l :: ls, acc, acc', hs, h => by
+    simp only [traverseFold] at h
+    split at h
+    · cases h
+    · next acc1 hstep => exact traverseFold_time (traverseStep_time hs hstep) h
+
+/-- **time budget**: the fully driven links' travel times sum to at most the step length -/
+theorem traverse_time_budget {g : Geo} {route : Route} {dt : Nat} {tr : Traversal}
+    (h : traverse g route dt = .ok tr) :
+    ∃ fulls : Route, ∃ part : Option Link, tr.experienced = fulls ++ part.toList ∧ sumTT fulls ≤ dt := by
+  cases route with
+  | nil => simp only [traverse] at h; cases h; exact ⟨[], none, rfl, by simp [sumTT]⟩
+  | cons first rest =>
+    simp only [traverse] at h
+    split at h
+    · cases h; exact ⟨[], none, rfl, by simp [sumTT]⟩
+    · split at h
+      · cases h
+      · next acc hfold =>
+        cases h
+        have h0 : TravTime dt { timeLeft := dt } :=
+          ⟨[], none, rfl, by simp [sumTT], (fun h => by cases h), by simp⟩
+        obtain ⟨fulls, part, he, hsum, _, hnn⟩ := traverseFold_time h0 hfold
+        exact ⟨fulls, part, he, by omega⟩
+
+theorem traverseStep_exp_mono {g : Geo} {acc acc' : TravAcc} {l : Link}
+    (hne : acc.experienced ≠ []) (h : traverseStep g acc l = some acc') : acc'.experienced ≠ [] := by
+  unfold traverseStep at h
+  split at h
+  · cases h; exact hne
+  · split at h
+    · cases h
+    · cases h
+      simp only
+      split
+      · simp
+      · exact hne
+
+theorem traverseFold_exp_mono {g : Geo} :
+    ∀ {todo : Route} {acc acc' : TravAcc}, acc.experienced ≠ [] → traverseFold g acc todo = some acc' →
+      acc'.experienced ≠ []
+  | [], acc, acc', hne, h => by simp only [traverseFold] at h; cases h; exact hne
+  | l :: ls, acc, acc', hne, h => by
+    simp only [traverseFold] at h
+    split at h
+    · cases h
+    · next acc1 hstep => exact traverseFold_exp_mono (traverseStep_exp_mono hne hstep) h
+
+/-- **progress**: an open route whose first link is not degenerate is driven (at least partly)
+    in every step of positive length -/
+theorem traverse_progress {g : Geo} {first : Link} {rest : Route} {dt : Nat} {tr : Traversal}
+    (hdt : 0 < dt) (hnd : first.nd = true)
+    (hopen : some first.start ≠ (first :: rest).getLast?.map (·.stop))
+    (h : traverse g (first :: rest) dt = .ok tr) : tr.experienced ≠ [] := by
+  simp only [traverse] at h
+  split at h
+  · next hc => exact absurd (by simpa using hc) hopen
+  · split at h
+    · cases h
+    · next acc hfold =>
+      cases h
+      simp only [traverseFold] at hfold
+      split at hfold
+      · cases hfold
+      · next acc1 hstep =>
+        refine traverseFold_exp_mono ?_ hfold
+        have hz : ((dt : Int) == 0) = false := by simp; omega
+        simp only [traverseStep, hz, Bool.false_eq_true, if_false] at hstep
+        split at hstep
+        · cases hstep
+        · next sp _ =>
+          cases hstep
+          have hdeg : (first.start == first.stop) = false := by simpa [Link.nd] using hnd
+          by_cases hfit : ({ first with speed := sp } : Link).travelTime ≤ (dt : Int)
+          · simp [traverseUpTo, hdeg, hfit]
+          · simp [traverseUpTo, hdeg, hfit]
+
+end Hive
